@@ -7,7 +7,8 @@ From J5V.lib Require Base64.
 From J5V.proofs Require Import CodecDecProofs CodecDecExact CodecDecTreeProofs CodecDecFaults CodecDecStored CodecDecBase64 CodecDecVariants.
 From J5V.model Require CodecDecTime.
 From J5V.proofs Require CodecDecTime.
-From J5V.lib Require Civil.
+From J5V.lib Require Civil Decimal.
+From J5V.proofs Require CodecDecDecimal.
 Import ListNotations.
 Local Open Scope N_scope.
 
@@ -435,6 +436,44 @@ Example C03_example_timestamps :
   CodecDecTime.go_time_parse (T.text T.ex_offset) = Some (1577836800%Z, 0%Z) /\
   CodecDecTime.go_time_parse (T.text T.ex_utc) = Some (1577836800%Z, 0%Z) /\
   CodecDecTime.go_time_parse (T.text (T.mkT 2021 2 29 false 0 0 0 None None)) = None.
+Proof. repeat split; vm_compute; reflexivity. Qed.
+
+(* ------------------------------------------------------------------ decimals *)
+(* decimal.NewFromString / Decimal.String() are modelled by lib/Decimal.v (dec_parse, dec_print: a decimal
+   is mantissa * 10^exponent) and compared with the library on every run.  With the decoder model's
+   decimal oracle being that model: a text is accepted, quoted or bare, iff dec_parse reads it with an
+   exponent within +-1000; what is stored is the canonical text dec_print m e, and that text reads back
+   as a numerically equal decimal — the stored value is exactly the number the member denotes; every
+   other text is rejected. *)
+Module D := J5V.proofs.CodecDecDecimal.
+Theorem C03_decimal_exact : forall orc quoted s c, D.decimal_oracle_is_model orc ->
+  scalar_from_go orc KDecimal (D.dec_goval quoted s) = Ok (Some (mk_decimal c)) ->
+  exists m e b, Decimal.dec_parse s = Some (m, e) /\ c = Decimal.dec_print m e /\
+                Decimal.dec_parse c = Some b /\ Decimal.dec_eq (m, e) b.
+Proof. exact D.decimal_exact. Qed.
+Print Assumptions C03_decimal_exact.
+
+Theorem C03_decimal_accepted : forall orc quoted s m e, D.decimal_oracle_is_model orc ->
+  Decimal.dec_parse s = Some (m, e) -> (Z.abs e <= max_decimal_exponent)%Z ->
+  scalar_from_go orc KDecimal (D.dec_goval quoted s) = Ok (Some (mk_decimal (Decimal.dec_print m e))).
+Proof. exact D.decimal_accepted. Qed.
+Print Assumptions C03_decimal_accepted.
+
+Theorem C03_decimal_invalid_rejected : forall orc quoted s, D.decimal_oracle_is_model orc ->
+  Decimal.dec_parse s = None -> is_err (scalar_from_go orc KDecimal (D.dec_goval quoted s)) = true.
+Proof. exact D.decimal_invalid_rejected. Qed.
+Print Assumptions C03_decimal_invalid_rejected.
+
+Theorem C03_decimal_exponent_rejected : forall orc quoted s m e, D.decimal_oracle_is_model orc ->
+  Decimal.dec_parse s = Some (m, e) -> (max_decimal_exponent < Z.abs e)%Z ->
+  is_err (scalar_from_go orc KDecimal (D.dec_goval quoted s)) = true.
+Proof. exact D.decimal_exponent_rejected. Qed.
+Print Assumptions C03_decimal_exponent_rejected.
+
+(* "1.50" reads as 150 * 10^-2 and is stored as "1.5"; "1.2.3" and "abc" are not decimals *)
+Example C03_example_decimals :
+  Decimal.dec_parse [49;46;53;48] = Some (150%Z, (-2)%Z) /\ Decimal.dec_print 150 (-2) = [49;46;53] /\
+  Decimal.dec_parse [49;46;50;46;51] = None /\ Decimal.dec_parse [97;98;99] = None.
 Proof. repeat split; vm_compute; reflexivity. Qed.
 
 (* ------------------------------------------------------------------ URL query parameters *)
